@@ -263,11 +263,12 @@ pub fn pal_label(r: &mut Rng) -> MLabel {
         let small = r.range(0, 9);
         let m = 1i64 << *r.pick(&[8u32, 16, 32, 40, 62]);
         let k = r.range(1, 3);
+        let km = k.wrapping_mul(m);
         return MLabel::Int(match r.below(4) {
-            0 => small + k * m,
-            1 => small - k * m,
-            2 => -small - k * m,
-            _ => (small + k * m) ^ i64::MIN,
+            0 => small.wrapping_add(km),
+            1 => small.wrapping_sub(km),
+            2 => (-small).wrapping_sub(km),
+            _ => small.wrapping_add(km) ^ i64::MIN,
         });
     }
     if r.chance(1, 4) {
